@@ -21,7 +21,10 @@ for m in muts:
             print('%-40s SKIP (pattern occurs %d times)' % (m['id'], s.count(m['old'])))
             res.append((m['id'], 'skip'))
             continue
-        open(p, 'w').write(s.replace(m['old'], m['new']))
+        s = s.replace(m['old'], m['new'])
+        for a, b in m.get('also', []):
+            s = s.replace(a, b)
+        open(p, 'w').write(s)
         env = dict(os.environ, VERIF_REPO=d, VERIF_EVIDENCE_DIR=os.path.join(d, 'evidence'))
         out = subprocess.run([os.path.join(ROOT, 'check'), m['prop']], capture_output=True, text=True, env=env)
         verdict = {0: 'SURVIVED', 1: 'killed', 2: 'undecided'}.get(out.returncode, 'rc=%d' % out.returncode)
